@@ -28,6 +28,7 @@ EXPLANATION = (
     "control transfer; (R5) top-level shutdown is reached from a finally block; (R6) the dispatcher iterates its own copy of the processor list and no "
     "method other than the constructor modifies it, so a failing processor cannot make another one miss events. R1 also requires that an async processor method is awaited where it is called, inside its own guard (a coroutine collected for a later gather runs outside the guard and abandons its siblings when one fails)."
     " (R8) nothing under events/ or the runners draws from or seeds the process-global random generator (observer-only code runs in different amounts with and without processors)."
+    " R8 also requires that what a step reports (applied outputs, the error) does not depend on the order in which its nodes complete."
 )
 NOT_DECIDED = (
     "That a processor which mutates objects reachable from an event (e.g. a list-valued decision) cannot influence the run; timing effects of slow "
